@@ -64,6 +64,9 @@ pub fn run_plan(p: &Plan) -> RunOut {
         (Shape::ZstVal, 0, 1) => go!(SK, ZVal, 0, 1),
         (Shape::Aligned, 3, 2) => go!(AK, AV, 3, 2),
         (Shape::Small, 300, 3) => go!(SK, SV, 300, 3),
+        (Shape::Small, 12, 9) => go!(SK, SV, 12, 9),
+        (Shape::Small, 64, 11) => go!(SK, SV, 64, 11),
+        (Shape::Boxed, 24, 6) => go!(BK, BV, 24, 6),
         (s, n, m) => panic!("no executor instance for shape {s:?} with capacities ({n}, {m})"),
     }
 }
